@@ -2,7 +2,7 @@
 (* Family Annot: annotation chains with repeated, empty and interleaved      *)
 (* hints / details / links / keys / tags.  Serves C19, C11.                 *)
 EXTENDS MCGen
-OpsV == {"GoNew", "Unimplemented", "AssertionFailedf", "WithHint", "WithHintf", "WithDetailf", "UnimplementedErrorf",  "WithDetail", "WithTelemetry",
+OpsV == {"OKCode", "GoNew", "Unimplemented", "AssertionFailedf", "WithHint", "WithHintf", "WithDetailf", "UnimplementedErrorf",  "WithDetail", "WithTelemetry",
          "WithDomain", "WithIssueLink", "WithContextTags", "WithAssertionFailure",
          "HandleAsAssertionFailure", "WrapWithHTTPCode", "WrapWithGrpcCode", "Join", "Hop"}
 \* restricted instance: OS-level errors (sentinels, errnos, path / syscall / link errors)
